@@ -87,8 +87,8 @@ func probes(d *dfaops.DFA) []rune {
 func main() {
 	r := ev.Start("C08", "translation_validation")
 	sets := defs.Sets()
-	if r.Quick() {
-		// quick keeps all sets: one compile covers them
+	if !r.Quick() {
+		sets = append(sets, defs.MoreSets()...)
 	}
 	var progs []*prog
 	var eprogs []*emitted.Program
